@@ -155,6 +155,23 @@ theorem partsOf_append (a b : List Tree) : partsOf (a ++ b) = partsOf a ++ parts
 
 theorem parts_group (cs : List Tree) : (Tree.group cs).parts = partsOf cs := by rw [Tree.parts]
 
+-- ------------------------------------------------------------------ inverse direction, sanitize=True
+
+/-- `note_array_to_score(..., sanitize=True)` runs `add_measures`, `tie_notes`, `find_tuplets`,
+    `sanitize_part` on the created part.  What those do is property C11, whose statement
+    (`tie_sound_same`: the note array of the normalised part has the same (onset, tied duration, pitch)
+    rows as before) is the hypothesis `hsame` here: ANY table `out'` (that of the normalised part) which agrees in that sense
+    with the table of the part `createPart` makes gives back the array's (onset, duration, pitch) triples. -/
+theorem from_to_array_sanitized (hb ht : Bool) (a : List ARow) (dv : Option Nat) (d : Nat)
+    (l : List (Int × Int × Int)) (M : Maps) (spell : Int → String × Int × Int) (o : Opts)
+    (out' : List Row)
+    (hspell : ∀ r ∈ a, Model.spellingToMidi (spell r.pitch).1 (some (spell r.pitch).2.1) (spell r.pitch).2.2 = some r.pitch)
+    (h : fromArray hb true ht a dv = .ok (d, l))
+    (hsame : ∃ out, rows (createPart d l M spell) o = some out ∧ out'.map rowTriple ~ out.map rowTriple) :
+    out'.map rowTriple ~ a.map divTriple := by
+  obtain ⟨out, hrows, hperm⟩ := hsame
+  exact hperm.trans (from_to_array hb ht a dv d l M spell o out hspell h hrows)
+
 -- ------------------------------------------------------------------ non-vacuity
 
 section Examples
@@ -197,6 +214,24 @@ example :
 example : (match ensureNoteArray true exOpts (.list [.group []]) with | .refused => true | _ => false) = true ∧
     (match ensureRestArray true exOpts false (.score []) with | .refused => true | _ => false) = true := by
   decide +kernel
+
+/-- from_to_array_sanitized: a part in which the note 1–3 of `exArr` is split into two tied halves (what
+    `tie_notes` does at a barline) has the same triples as the unsplit part -/
+def exSplit : Part :=
+  { notes :=
+      [ { id := "n0", kind := .note, onset := 0, dur := 1, step := "C", alter := some 0, octave := 4, voice := some 1,
+          staff := none, graceType := "", tieNext := none, tiePrev := none },
+        { id := "n1", kind := .grace, onset := 1, dur := 0, step := "C", alter := some 1, octave := 4, voice := some 1,
+          staff := none, graceType := "appoggiatura", tieNext := none, tiePrev := none },
+        { id := "n2", kind := .note, onset := 1, dur := 1, step := "D", alter := some 0, octave := 4, voice := some 1,
+          staff := none, graceType := "", tieNext := some 3, tiePrev := none },
+        { id := "n2b", kind := .note, onset := 2, dur := 1, step := "D", alter := some 0, octave := 4, voice := some 1,
+          staff := none, graceType := "", tieNext := none, tiePrev := some 2 } ],
+    qdurs := [3], maps := exMaps }
+
+example : ((rows exSplit exOpts).map fun t => t.map rowTriple) = some [(0, 1, 60), (1, 0, 61), (1, 2, 62)] ∧
+    ((rows (createPart 3 [(0, 1, 60), (1, 0, 61), (1, 2, 62)] exMaps exSpell) exOpts).map fun t => t.map rowTriple) =
+      some [(0, 1, 60), (1, 0, 61), (1, 2, 62)] := by decide +kernel
 
 end Examples
 
